@@ -144,3 +144,69 @@ def contiguity(repo, rep, rule, floor=6):
         else:
             rep.fail(rule, fi.file, call.lineno, fi.qualname, f"specpart.partition({unparse(call.args[0])[:90]}, ...)", why)
     return sites
+
+
+def per_iteration_buffers(repo, rep, rule, prefixes):
+    """A buffer that is emitted once per loop iteration (appended to a list) and is also filled in place inside the loop
+    (`X[i, :] = ...`, `X *= f`) must be freshly allocated inside the same iteration before anything else touches it: otherwise
+    a record for which no branch fills it (NODATA, missing block) carries the previous record's values.
+    Accepts: first mention of X in the loop body is a top-level `X = <expression containing a call>` (an allocation), not an
+    alias of a name bound outside the loop."""
+    import ast
+    from ..model import unparse
+    n_loops = n_bufs = 0
+    for fi in repo.all_funcs():
+        if not any(fi.module.name.startswith(p) for p in prefixes):
+            continue
+        for loop in ast.walk(fi.node):
+            if not isinstance(loop, (ast.For, ast.While)):
+                continue
+            n_loops += 1
+            mutated, emitted = {}, {}
+            for n in ast.walk(loop):
+                if isinstance(n, ast.Assign):
+                    for t in n.targets:
+                        if isinstance(t, ast.Subscript) and isinstance(t.value, ast.Name):
+                            mutated.setdefault(t.value.id, n)
+                elif isinstance(n, ast.AugAssign):
+                    t = n.target
+                    if isinstance(t, ast.Name):
+                        mutated.setdefault(t.id, n)
+                    elif isinstance(t, ast.Subscript) and isinstance(t.value, ast.Name):
+                        mutated.setdefault(t.value.id, n)
+                elif isinstance(n, ast.Call) and isinstance(n.func, ast.Attribute) and n.func.attr == "append" and n.args:
+                    for x in ast.walk(n.args[0]):
+                        if isinstance(x, ast.Name):
+                            emitted.setdefault(x.id, n)
+            for name in sorted(set(mutated) & set(emitted)):
+                # the emitting append must belong to THIS loop's body directly or through ifs (per-iteration), not to an inner loop only
+                ap = emitted[name]
+                p = getattr(ap, "_parent", None)
+                inner = False
+                while p is not None and p is not loop:
+                    if isinstance(p, (ast.For, ast.While)):
+                        inner = True
+                    p = getattr(p, "_parent", None)
+                if inner:
+                    continue
+                # scalars (counters) are not buffers: need an element store or an allocation somewhere
+                if not any(isinstance(n, ast.Assign) and any(isinstance(t, ast.Subscript) and isinstance(t.value, ast.Name) and t.value.id == name
+                                                             for t in n.targets) for n in ast.walk(loop)):
+                    continue
+                n_bufs += 1
+                first = None
+                for st in loop.body:
+                    if any(isinstance(x, ast.Name) and x.id == name for x in ast.walk(st)):
+                        first = st
+                        break
+                fresh = isinstance(first, ast.Assign) and len(first.targets) == 1 and isinstance(first.targets[0], ast.Name) \
+                    and first.targets[0].id == name and any(isinstance(x, ast.Call) for x in ast.walk(first.value)) \
+                    and not any(isinstance(x, ast.Name) and x.id == name for x in ast.walk(first.value))
+                if fresh:
+                    rep.ok(rule, f"{fi.file}:{first.lineno} {fi.short}", f"{unparse(first)[:80]}", f"'{name}' is allocated anew for every record before it is filled")
+                else:
+                    rep.fail(rule, fi.file, (first or loop).lineno, fi.qualname, f"{name}: {unparse(first)[:90] if first is not None else 'no allocation in the loop'}",
+                             f"'{name}' is filled in place and emitted once per iteration, but it is not allocated afresh at the top of the "
+                             "iteration: a record that no branch fills (NODATA / missing block) returns the previous record's values, and "
+                             "records already emitted may be overwritten through the shared buffer", anchor=f"per-iteration-buffer:{name}")
+    return n_loops, n_bufs
